@@ -11,6 +11,7 @@ import (
 	"os"
 	"path/filepath"
 
+	"lcv/core"
 	"lcv/props"
 )
 
@@ -27,7 +28,20 @@ func main() {
 		exe, _ := os.Executable()
 		verif = filepath.Dir(filepath.Dir(exe))
 	}
+	core.AnchorFile = filepath.Join(verif, "anchors.json")
 	switch os.Args[1] {
+	case "gen-anchors":
+		// resolve every anchor on the current tree (by running all checks with their output discarded) and record its shape
+		os.Setenv("LCV_OUT", os.TempDir()+"/lcv-gen-anchors")
+		for _, id := range props.IDs() {
+			props.RunCheck(repo, verif, id, "quick")
+		}
+		os.RemoveAll(os.TempDir() + "/lcv-gen-anchors")
+		if err := core.SaveRequested(core.AnchorFile); err != nil {
+			fmt.Fprintln(os.Stderr, err)
+			os.Exit(2)
+		}
+		fmt.Println("wrote", core.AnchorFile)
 	case "check":
 		if len(os.Args) < 4 {
 			usage()
